@@ -85,8 +85,25 @@ def r1(ctx):
         keys = [tt for bb, tt in u.calls(re.compile(r"^indexmap::IndexMap::(keys|contains_key|get)$"))]
         ok = any(_on_field(u, tt["args"][0], "turmoil::host::Udp::binds") for tt in keys)
         ctx.inst(R, "udp:reads-binds", ok, u.span, "scans UDP binds" if ok else "Udp::is_port_assigned no longer reads Udp::binds")
+    # in use means bound at *any* local address (the property's words): the verdict of either predicate depends on port numbers only
+    for fid in ("turmoil::host::Udp::is_port_assigned", "turmoil::host::Tcp::is_port_assigned"):
+        fb0 = ctx.w.bodies.get(fid)
+        if not fb0:
+            continue
+        seen = []
+        for fb in ctx.w.family(fid):
+            for bb, tt in fb.calls(re.compile(r"::(is_loopback|is_unspecified|is_multicast|ip|is_ipv4|is_ipv6)$")):
+                seen.append(tt["f"].rsplit("::", 1)[1] + "()")
+            for bb, i, s2 in fb.all_stmts():
+                for pl in ([s2["r"]["p"]] if isinstance(s2["r"].get("p"), dict) else []) + [op_place(o) for o in _ops(s2["r"]) if op_place(o)]:
+                    for f in place_fields(pl):
+                        if f.endswith("::bind_addr"):
+                            seen.append(f.rsplit("::", 2)[-2] + "::bind_addr")
+        ctx.inst(R, f"{fid.rsplit('::', 2)[-2].lower()}:address-blind", not seen, fb0.span, "the verdict depends on port numbers only" if not seen else
+                 f"`{fid}` looks at addresses ({sorted(set(seen))}): a port bound at some local address (e.g. loopback) no longer counts as in use and is handed out "
+                 "again by ephemeral assignment")
     # callers: every place that needs a fresh port calls assign_ephemeral_port
-    ctx.floor(R, 6)
+    ctx.floor(R, 8)
 
 
 def _ops(r):
